@@ -328,7 +328,7 @@ def search(ctx):
         want = RigidCluster(base, translation=(0.5, 0.0, 5.0), rotation=(1.0, 0.0, 0.0))
         gc = np.array([s.center for s in got.scatterers])
         wc = np.array([s.center for s in want.scatterers])
-        if np.abs(gc - wc).max() > 1e-9:
+        if not (np.abs(gc - wc).max() <= 1e-9):
             ctx.violation("C11:rigid-cluster-in-model", "Model over a RigidCluster ignores its rotation/translation parameter values: centres %r, expected %r" % (gc.tolist(), wc.tolist()),
                           dict(kind="rigid", got=gc.tolist(), want=wc.tolist()))
     except Exception as ex:
@@ -456,6 +456,63 @@ def search(ctx):
         except Exception as ex:
             import traceback
             ctx.violation("C11:raises:%s" % type(ex).__name__, "model bookkeeping raised %r" % (ex,), dict(kind="raises", tb=traceback.format_exc()[-800:]))
+    # ties among EQUAL (but distinct) priors at non-adjacent positions: every subset of the candidates; the tied model
+    # must put each value exactly where the untied model puts the expanded values
+    for i in range(ctx.n(12, 100)):
+        try:
+            eq = lambda: Uniform(0, 10, guess=5.0)
+            other = lambda lo: Uniform(lo, lo + 1, guess=lo + float(rng.uniform(0.2, 0.8)))
+            which = i % 3
+            if which == 0:
+                # n, r, center.0, center.1, center.2 (+ lens angle) with equal priors at a random subset of the sites
+                sites = [bool(rng.integers(0, 2)) for _ in range(5)]
+                if sum(sites) < 2:
+                    sites[0] = sites[2] = sites[4] = True
+                mk = lambda j: eq() if sites[j] else other(20 + 2 * j)
+                sc = Sphere(n=mk(0), r=mk(1), center=[mk(2), mk(3), mk(4)])
+                theory = MieLens(lens_angle=eq() if rng.random() < 0.5 else other(40)) if rng.random() < 0.5 else Mie()
+            elif which == 1:
+                m = int(rng.integers(2, 4))
+                sc = Spheres([Sphere(n=eq() if rng.random() < 0.5 else other(20 + j), r=eq() if rng.random() < 0.6 else other(30 + j),
+                                     center=[eq() if rng.random() < 0.5 else other(50 + j), float(j), eq()]) for j in range(m)], warn=False)
+                theory = Mie()
+            else:
+                sc = Sphere(n=[eq(), other(20), eq()], r=[other(30), eq(), other(32)], center=[eq(), 1.0, eq()])
+                theory = Mie()
+            alpha = eq() if rng.random() < 0.5 else other(60)
+            mkmodel = lambda: AlphaModel(sc, alpha=alpha, medium_index=1.33, illum_wavelen=0.66, illum_polarization=(1, 0), theory=theory, noise_sd=0.1)
+            model = mkmodel()
+            names = list(model._parameter_names)
+            cands = [nm for nm, p in zip(names, model._parameters) if (p.lower_bound, p.upper_bound, p.guess) == (0, 10, 5.0)]
+            vals = {nm: 100.0 + 7 * j for j, nm in enumerate(names)}
+            subsets = [c for r_ in range(2, min(len(cands), 5) + 1) for c in itertools.combinations(cands[:6], r_)]
+            if ctx.tier == "quick":
+                subsets = [subsets[j] for j in sorted(rng.choice(len(subsets), size=min(8, len(subsets)), replace=False))] if subsets else []
+            info = dict(kind="tie-equal", scatterer=repr(sc), names=names)
+            for sub in subsets:
+                m2 = mkmodel()
+                m2.add_tie(list(sub))
+                ctx.tried("tie-equal", (which, tuple(names.index(nm) for nm in sub), len(names)))
+                first = sorted(sub, key=names.index)[0]
+                vfull = dict(vals)
+                for nm in sub:
+                    vfull[nm] = vals[first]
+                if len(m2._parameter_names) != len(names) - (len(sub) - 1) or len(set(m2._parameter_names)) != len(m2._parameter_names):
+                    ctx.violation("C11:tie-count", "tying %r did not remove exactly the duplicates: %r" % (sub, m2._parameter_names), dict(tie=list(sub), **info))
+                    break
+                tied_vals = {nm: vfull[nm] if nm in vfull else vals[first] for nm in m2._parameter_names}
+                sa, sb = m2.scatterer_from_parameters(tied_vals), model.scatterer_from_parameters(vfull)
+                ta, tb = m2.theory_from_parameters(tied_vals), model.theory_from_parameters(vfull)
+                aa = read_map(m2._maps['model'], [tied_vals[nm] for nm in m2._parameter_names])['alpha']
+                ab = read_map(model._maps['model'], [vfull[nm] for nm in names])['alpha']
+                sl = m2.scatterer_from_parameters([tied_vals[nm] for nm in m2._parameter_names])
+                if repr(sa) != repr(sb) or repr(ta) != repr(tb) or aa != ab or repr(sl) != repr(sa):
+                    ctx.violation("C11:tie-values", "after tying %r (positions %r of %d) a value lands where its prior was not used: tied model gives %s, expected %s" % (
+                        sub, [names.index(nm) for nm in sub], len(names), repr(sa)[:160], repr(sb)[:160]), dict(tie=list(sub), **info))
+                    break
+        except Exception as ex:
+            import traceback
+            ctx.violation("C11:raises:%s" % type(ex).__name__, "tie bookkeeping raised %r" % (ex,), dict(kind="raises", tb=traceback.format_exc()[-800:]))
     ctx.sample(dict(kind="search", oracles=["unique names", "one parameter per distinct prior", "values reach every site (dict == list)", "guess scatterer",
                                             "round trip + no shared mutable state", "all tie subsets up to 5 candidates", "rigid cluster probe"]))
 
